@@ -81,7 +81,11 @@ RULE = ("pairs of positive-rate GriddedForecasts on a common CartesianGrid2D (1.
         "recomputed from scratch after every evaluation; forecasts B that differ from A by a few ulps in a few bins "
         "(log-rate differences and null median of order 1e-16, not zero); horizons that are not whole days (scale=True "
         "divides by the whole days elapsed); the factor of the forecast objects set by scale_to_test_date, also after an "
-        "earlier scale(); "
+        "earlier scale(); array-valued scale factors of every broadcastable shape ((m,), (n,1), (1,m), (n,m), 0-d, (1,)) in "
+        "one or both forecasts and in session steps (event_count must be one number); in half of the cases the caller "
+        "modifies in place every array the public calls returned (data, spatial_counts, magnitude_counts, both "
+        "target_event_rates, get_rates, result arrays) and evaluates T / W / binary-T again (same numbers required); rate "
+        "arrays and catalog rows compared bit for bit afterwards; "
         "every test called A/B, B/A and A/A. A case is non-trivial when the differences contain a tie, a zero or "
         "both signs; distinct by the full input")
 
@@ -206,7 +210,14 @@ def _gen_case(rng):
         pool = [0.5, 2.0, 3, 1 / 365.25, 0.1, 10.0]
         sa = rng.choice(pool)
         sb = sa if rng.random() < 0.5 else rng.choice(pool + [1])
+        if rng.random() < 0.4:
+            # SCALE HISTORIES with array-valued factors of every broadcastable shape, in one or both forecasts
+            sa = dict(arr=rng.choice(ARR_KINDS), seed=rng.randrange(2 ** 32))
+            if rng.random() < 0.5:
+                sb = dict(arr=rng.choice(ARR_KINDS), seed=rng.randrange(2 ** 32))
         case["fscale"] = [sa, sb]
+    # the caller modifies in place the arrays the public calls returned, then evaluates again
+    case["alias"] = rng.choice(["zero", "scale", "normalise", "fill"]) if rng.random() < 0.5 else None
     # events anywhere inside their cell / magnitude bin (not only on midpoints); the top magnitude bin is open above
     if rng.random() < 0.6:
         case["pos"] = [[round(rng.uniform(0.04, 0.96), 6), round(rng.uniform(0.04, 0.96), 6),
@@ -229,6 +240,19 @@ def _gen_case(rng):
         case["b"] = [float(v).hex() for v in bi.ravel()]
         case["layout"] = "int64"
     return case
+
+
+ARR_KINDS = ["mag", "cell", "row", "full", "0d", "one"]
+
+
+def _fval(spec, shape):
+    """the argument of GriddedDataSet.scale(): an int / float, or (spec = dict) an ndarray of any shape that broadcasts
+    against the (cells, magnitudes) rates - scale() documents "int, float, or ndarray"; all factors positive"""
+    if isinstance(spec, dict):
+        g = numpy.random.default_rng(spec["seed"])
+        shp = {"mag": (shape[1],), "cell": (shape[0], 1), "row": (1, shape[1]), "full": shape, "0d": (), "one": (1,)}[spec["arr"]]
+        return numpy.asarray(g.choice([0.25, 0.5, 1.0, 2.0, 0.1, 3.0, 1 / 365.25], size=shp) if shp else g.choice([0.5, 2.0, 0.1]))
+    return spec
 
 
 def _decyear(dt):
@@ -281,8 +305,8 @@ def _build(case):
         case["fscale"] = fsc
         case["fscale_from_testdate"] = True
     elif case.get("fscale"):
-        fa.scale(case["fscale"][0])
-        fb.scale(case["fscale"][1])
+        fa.scale(_fval(case["fscale"][0], a.shape))
+        fb.scale(_fval(case["fscale"][1], b.shape))
     ev = case["ev"]
     arr = numpy.zeros(len(ev), dtype=DT)
     arr['id'] = numpy.arange(len(ev)).astype('S')
@@ -337,7 +361,12 @@ def _ref_t(ra, rb, n, na, nb, alpha):
     t = ig / (std / math.sqrt(n)) if std > 0 else float("nan")
     # size of the terms that cancel in the gain: rounding of the sums is relative to this, not to the gain itself
     mag = (math.fsum(abs(v) for v in x) + abs(na) + abs(nb)) / n
-    return dict(ig=ig, t=t, tcrit=tc, lower=ig - half, upper=ig + half, kappa=kappa, var=var, first=first, mag=mag)
+    # rounding of the inputs of Eq. 18 themselves: x_i = log p - log q carries an absolute error of an ulp of the LOGS, which
+    # is relative to the spread of the x_i (not to the x_i) in the standard deviation - near-identical forecasts have x_i of
+    # order 1e-13 from logs of order 1
+    xerr = 2.3e-16 * max([abs(math.log(p)) + abs(math.log(q)) for p, q in zip(ra, rb)] + [0.0])
+    xcond = (8 * xerr / std) if (std == std and std > 0) else float("inf")
+    return dict(ig=ig, t=t, tcrit=tc, lower=ig - half, upper=ig + half, kappa=kappa, var=var, first=first, mag=mag, xcond=xcond)
 
 
 def _rank_stats(d):
@@ -475,8 +504,15 @@ def _check(run, drv, pending, case, tag):
     import scipy.stats
     from csep.core import poisson_evaluations as pe, binomial_evaluations as be
     fa, fb, cat, a0, b0 = _build(case)
-    fsc = case.get("fscale") or [1, 1]
+    fsc = [_fval(v, a0.shape) for v in (case.get("fscale") or [1, 1])]
     a, b = a0 * fsc[0], b0 * fsc[1]          # the rates of the forecast objects: stored rates x the factor of .scale()
+    arrfac = any(isinstance(v, numpy.ndarray) for v in fsc)
+    if arrfac:
+        for v in fsc:
+            if isinstance(v, numpy.ndarray):
+                run.count("fscale:array-valued:" + ("0-d" if v.ndim == 0 else "1-d" if v.ndim == 1 else "full" if v.shape == a0.shape
+                                                    else "per-cell" if v.shape[1] == 1 else "per-magnitude-row"))
+    cat_bytes = cat.catalog.tobytes()
     alpha, scale = case["alpha"], case["scale"]
     n = len(case["ev"])
     nm = case["nm"]
@@ -543,7 +579,7 @@ def _check(run, drv, pending, case, tag):
         return
     ref = _ref_t(ra, rb, n, na, nb, alpha)
     # Eq. 18 subtracts two sums of N terms: rounding of each sum (<= N ulps, summation order is free) is amplified by kappa
-    cond_tol = 1e-9 + 2e-16 * max(n, 8) * ref["kappa"] if math.isfinite(ref["kappa"]) else float("inf")
+    cond_tol = 1e-9 + 2e-16 * max(n, 8) * ref["kappa"] + ref["xcond"] if math.isfinite(ref["kappa"]) else float("inf")
     degenerate = not (cond_tol < 1e-6)
     scale_ig = max(abs(ref["ig"]), 1e-4 * ref["mag"], 1e-300)
     if not _same(tab["ig"], ref["ig"], 1e-9, 1e-9 * scale_ig):
@@ -637,7 +673,7 @@ def _check(run, drv, pending, case, tag):
         if not (_same(bab["ig"], bref["ig"], 1e-9, 1e-9 * s_ig) and _same(bab["tcrit"], bref["tcrit"], 1e-9)):
             run.oracle_failure(short, f"binary gain/t_crit {bab['ig']!r},{bab['tcrit']!r} but the T formulas on the "
                                       f"{nact} active bins give {bref['ig']!r},{bref['tcrit']!r}")
-        ctol = 1e-9 + 2e-16 * max(nact, 8) * bref["kappa"] if math.isfinite(bref["kappa"]) else float("inf")
+        ctol = 1e-9 + 2e-16 * max(nact, 8) * bref["kappa"] + bref["xcond"] if math.isfinite(bref["kappa"]) else float("inf")
         bdeg = not (ctol < 1e-6)
         if not bdeg:
             half = abs(bref["upper"] - bref["ig"])
@@ -690,6 +726,70 @@ def _check(run, drv, pending, case, tag):
                 midx.append((short, q, impl_flat))
         except Exception as e:
             run.oracle_failure(short, f"direct helper call: {type(e).__name__}: {e}")
+    # ---- ALIASING OF RETURNED OBJECTS: the caller changes in place every array the public calls handed out, then evaluates
+    # again: the results must be those of the forecasts as constructed (bit for bit the first results)
+    if case.get("alias"):
+        mode = case["alias"]
+
+        def poke(o):
+            if isinstance(o, (tuple, list)):
+                return sum(poke(v) for v in o)
+            if not isinstance(o, numpy.ndarray) or o.size == 0:
+                return 0
+            try:
+                if mode == "zero":
+                    o[...] = 0
+                elif mode == "scale":
+                    o *= 3
+                elif mode == "fill":
+                    o[...] = 7
+                else:
+                    o /= o.sum()
+                return 1
+            except (TypeError, ValueError):
+                return 0
+        try:
+            k_ = 0
+            for f_ in (fa, fb):
+                for get in (lambda: f_.data, lambda: f_.spatial_counts(), lambda: f_.magnitude_counts(),
+                            lambda: _call(f_.target_event_rates, cat, scale=scale),
+                            lambda: _call(f_.target_event_rates, cat, scale=not scale),
+                            lambda: f_.get_rates(cat.get_longitudes(), cat.get_latitudes(), cat.get_magnitudes())):
+                    try:
+                        k_ += poke(get())
+                    except Exception:
+                        pass
+            for r_ in out.values():
+                if r_ is not None:
+                    poke(getattr(r_, "test_distribution", None)); poke(getattr(r_, "quantile", None))
+            run.count("alias:returned-arrays-modified" if k_ else "alias:nothing-modifiable")
+            (ta, tk) = targs(fa, fb); (wa, wk) = wargs(fa, fb)
+            again = dict(tAB=_call(pe.paired_t_test, *ta, **tk), wAB=_call(pe.w_test, *wa, **wk) if out["wAB"] is not None else None,
+                         bAB=_call(be.binary_paired_t_test, *ta, **tk) if out["bAB"] is not None else None)
+            t2_ = _tres(again["tAB"])
+            same = all(_same(t2_[k], tab[k], 1e-12, 0.0) for k in t2_)
+            if again["wAB"] is not None:
+                same = same and _same(float(again["wAB"].observed_statistic), zab, 1e-12, 0.0) \
+                    and _same(float(again["wAB"].quantile), pab, 1e-12, 0.0)
+            if again["bAB"] is not None:
+                b2_ = _tres(again["bAB"])
+                same = same and all(_same(b2_[k], bab[k], 1e-12, 0.0) for k in b2_)
+            if not same:
+                run.oracle_failure(short, f"after the caller modified in place ({mode}) arrays RETURNED by the forecasts / results the "
+                                          f"tests give other numbers: paired T {t2_!r} (before {tab!r})")
+        except Exception as e:
+            run.oracle_failure(short, f"evaluation after in-place changes to returned arrays: {type(e).__name__}: {e}")
+    # ---- ALIASING OF CALLER-OWNED INPUT: rate arrays handed to the constructors and the catalog rows, bit for bit
+    a_ref = numpy.array([float.fromhex(v) for v in case["a"]]).reshape(a0.shape)
+    b_ref = numpy.array([float.fromhex(v) for v in case["b"]]).reshape(b0.shape)
+    if not (numpy.array_equal(a0, a_ref) and numpy.array_equal(b0, b_ref)):
+        run.oracle_failure(short, "the rate arrays handed to the forecast constructors were changed (by a test, or through an "
+                                  "array the forecast returned)")
+    try:
+        if cat.catalog.tobytes() != cat_bytes:
+            run.oracle_failure(short, "the rows of the observed catalog were changed by the tests")
+    except Exception as e:
+        run.oracle_failure(short, f"catalog rows unreadable after the tests: {type(e).__name__}: {e}")
     # ---- bookkeeping
     nontriv = w["tie"] or w["signs"] or (w["count"] < n)
     run.case(dict(kind=case["kind"], n=n, alpha=alpha, scale=scale, cells=case["nx"] * case["ny"], nm=nm, tag=tag),
@@ -729,7 +829,11 @@ def _check(run, drv, pending, case, tag):
                       f"{','.join(str(c * nm + mm) for c, mm in case['ev'])} "
                       f"{bits(out_nf(fa, scale, case['days_a']))} {bits(out_nf(fb, scale, case['days_b']))} {bits(tcb)}")
     flat_ev = ",".join(str(c * nm + mm) for c, mm in case["ev"])
-    pubargs = (f"{blist(a0.ravel())} {bits(fsc[0])} {case['days_a']} {blist(b0.ravel())} {bits(fsc[1])} {case['days_b']} "
+    if arrfac:      # the Lean forecast carries one scalar factor: an array factor is folded into the stored rates
+        pa, pb, pfa, pfb = a, b, 1.0, 1.0
+    else:
+        pa, pb, pfa, pfb = a0, b0, fsc[0], fsc[1]
+    pubargs = (f"{blist(pa.ravel())} {bits(pfa)} {case['days_a']} {blist(pb.ravel())} {bits(pfb)} {case['days_b']} "
                f"{flat_ev} {1 if scale else 0}")
     i_pt = drv.ask(f"c08_pubt {pubargs} {bits(tc)}")
     i_pb = drv.ask(f"c08_pubb {pubargs} {bits(tcb)}") if nact >= 2 else None
@@ -863,7 +967,8 @@ def _gen_session(rng):
         st = dict(op=op, order=rng.choice(["AB", "BA", "AA"]), scale=rng.random() < 0.5,
                   alpha=rng.choice([0.05, 0.01, 0.1]))
         if op == "fscale":
-            st.update(which=rng.choice("ab"), v=rng.choice([0.5, 2.0, 1, 3, 0.1, 10.0]))
+            st.update(which=rng.choice("ab"), v=rng.choice([0.5, 2.0, 1, 3, 0.1, 10.0]) if rng.random() < 0.65 else
+                      dict(arr=rng.choice(ARR_KINDS), seed=rng.randrange(2 ** 32)))
         if op == "catcut":
             st["cut"] = rng.choice([4.5, 5.0])
         if op == "testdate":
@@ -903,7 +1008,9 @@ def _session(run, case):
         n = len(ev)
         try:
             if op == "fscale":
-                (fa if st["which"] == "a" else fb).scale(st["v"]); fac[st["which"]] = float(st["v"])
+                v_ = _fval(st["v"], a0.shape)
+                (fa if st["which"] == "a" else fb).scale(v_)
+                fac[st["which"]] = v_ if isinstance(v_, numpy.ndarray) else float(v_)
                 continue
             if op == "testdate":
                 f = fa if st["which"] == "a" else fb
@@ -968,7 +1075,7 @@ def _session(run, case):
             ref = _ref_t(ra, rb, n, na, nb, alpha)
             s_ig = max(abs(ref["ig"]), 1e-4 * ref["mag"], 1e-300)
             ok = _same(got["ig"], ref["ig"], 1e-9, 1e-9 * s_ig) and _same(got["tcrit"], ref["tcrit"], 1e-9)
-            ctol = 1e-9 + 2e-16 * max(n, 8) * ref["kappa"] if math.isfinite(ref["kappa"]) else float("inf")
+            ctol = 1e-9 + 2e-16 * max(n, 8) * ref["kappa"] + ref["xcond"] if math.isfinite(ref["kappa"]) else float("inf")
             if ok and ctol < 1e-6:
                 half = abs(ref["upper"] - ref["ig"])
                 ok = _same(got["lower"], ref["lower"], ctol, ctol * half + 1e-9 * s_ig) and \
@@ -976,7 +1083,12 @@ def _session(run, case):
             why = f"paired T {got!r} but Eq. 17/18 on the current objects give ig={ref['ig']!r} [{ref['lower']!r}, {ref['upper']!r}]"
         elif op == "w":
             x = numpy.log(numpy.array(ra)) - numpy.log(numpy.array(rb))
-            t1, t2 = float(f1.event_count), float(f2.event_count)      # the totals of the null median, checked against
+            try:
+                t1, t2 = float(f1.event_count), float(f2.event_count)  # the totals of the null median, checked against
+            except Exception as e:
+                run.oracle_failure(short, f"step {k}: event_count of a forecast is not a number ({type(e).__name__}: {e}): "
+                                          f"{numpy.shape(f1.event_count)!r} {numpy.shape(f2.event_count)!r}")
+                return
             if not (_same(t1, math.fsum(ea.ravel().tolist()), 1e-12, 0.0) and _same(t2, math.fsum(eb.ravel().tolist()), 1e-12, 0.0)):
                 run.oracle_failure(short, f"step {k}: forecast totals {t1!r}, {t2!r} are not the sums of the current rates")
                 return
